@@ -13,7 +13,7 @@
 #      exactly the undefined names in placeholder position;
 #  (4) dump_conf_header: exactly the keys, once each, sorted, documented rendering per type.
 # Plus a file-level slice (do_conf_file on real files == do_conf_str on the same text, byte for byte).
-import io, itertools, json, os, re, signal, string, sys, time
+import io, itertools, json, os, re, shutil, signal, string, sys, time
 from verif.core import Check, pmap, run_main, scratch_root
 
 from mesonbuild import mlog
@@ -654,6 +654,127 @@ def shard(rng):
     return acc.dump()
 
 
+# ---- tier B: the same templates end-to-end through configure_file() of a real `meson setup` ------------------------------
+# The data values are written as Meson literals into a generated meson.build (configuration_data().set), every
+# template is an input file, and the file configure_file() writes must equal, byte for byte, what do_conf_str gave
+# in-process for the same template/data/format (tier A has compared that with the reference); templates for which
+# do_conf_str raises must make `meson setup` fail with an error (not crash).
+TB_VALUES = ['v', '', '@B@', 'x y', 10, 0, True, False]
+
+
+def _mlit(v):
+    if isinstance(v, bool):
+        return 'true' if v else 'false'
+    if isinstance(v, int):
+        return str(v)
+    return "'" + v.replace('\\', '\\\\').replace("'", "\\'") + "'"
+
+
+def tierb_batch(job):
+    from verif import mesonproc as mp
+    bi, cases = job        # cases: list of (template text, a, b, fmt)
+    root = os.path.join(scratch_root(), 'tb%d.%d' % (os.getpid(), bi))
+    shutil.rmtree(root, ignore_errors=True)
+    os.makedirs(root)
+    L = ["project('c14b')"]
+    tmpl_ids = {}
+    cds = {}
+    expect = []
+    for ci, (text, a, b, fmt) in enumerate(cases):
+        if text not in tmpl_ids:
+            tmpl_ids[text] = len(tmpl_ids)
+            with open(os.path.join(root, 't%d.in' % tmpl_ids[text]), 'w', encoding='utf-8', newline='') as f:
+                f.write(text)
+        if (a, b, type(a), type(b)) not in cds:
+            k = len(cds)
+            cds[(a, b, type(a), type(b))] = k
+            L.append('cd%d = configuration_data()' % k)
+            L.append("cd%d.set('A', %s)" % (k, _mlit(a)))
+            L.append("cd%d.set('B', %s)" % (k, _mlit(b)))
+        out = 'o%d.out' % ci
+        L.append("configure_file(input: 't%d.in', output: '%s', configuration: cd%d, format: '%s')" % (tmpl_ids[text], out, cds[(a, b, type(a), type(b))], fmt))
+        r = run_real(split_lines(text), cd_for(a, b), fmt)
+        expect.append((out, r))
+    with open(os.path.join(root, 'meson.build'), 'w', encoding='utf-8') as f:
+        f.write('\n'.join(L) + '\n')
+    res = mp.run_meson(['setup', 'b', '--backend=none'], root, timeout=600)
+    outv = []
+    if res.rc != 0 or res.unhandled:
+        outv.append(('C14:tierB:setup-fails', 'meson setup fails on templates that do_conf_str accepts: ' + res.out[-300:], {'cases': [list(map(repr, c)) for c in cases[:3]]}))
+    else:
+        for (out, r), (text, a, b, fmt) in zip(expect, cases):
+            try:
+                with open(os.path.join(root, 'b', out), 'r', encoding='utf-8', newline='') as f:
+                    got = f.read()
+            except OSError:
+                got = None
+            exp = ''.join(r[1])
+            if got != exp:
+                outv.append(('C14:tierB:file-differs:%s' % fmt, 'configure_file(format: %r) on template %r with A=%r B=%r wrote %r, do_conf_str gives %r' % (fmt, text, a, b, got, exp),
+                             {'template': text, 'format': fmt, 'data': {'A': a, 'B': b}}))
+    shutil.rmtree(root, ignore_errors=True)
+    return len(cases), outv
+
+
+def tierb_error_case(job):
+    from verif import mesonproc as mp
+    bi, (text, a, b, fmt) = job
+    root = os.path.join(scratch_root(), 'tbe%d.%d' % (os.getpid(), bi))
+    shutil.rmtree(root, ignore_errors=True)
+    os.makedirs(root)
+    with open(os.path.join(root, 't.in'), 'w', encoding='utf-8', newline='') as f:
+        f.write(text)
+    with open(os.path.join(root, 'meson.build'), 'w', encoding='utf-8') as f:
+        f.write("project('c14e')\ncd = configuration_data()\ncd.set('A', %s)\ncd.set('B', %s)\nconfigure_file(input: 't.in', output: 'o.out', configuration: cd, format: '%s')\n" % (_mlit(a), _mlit(b), fmt))
+    res = mp.run_meson(['setup', 'b', '--backend=none'], root, timeout=120)
+    shutil.rmtree(root, ignore_errors=True)
+    if res.unhandled or res.rc not in (0, 1):
+        return [('C14:tierB:crash', 'meson setup crashes on template %r (%s): %s' % (text, fmt, res.out[-300:]), {'template': text, 'format': fmt, 'data': {'A': a, 'B': b}})]
+    if res.rc == 0:
+        return [('C14:tierB:error-not-raised', 'do_conf_str rejects template %r (%s) but configure_file() accepted it' % (text, fmt), {'template': text, 'format': fmt, 'data': {'A': a, 'B': b}})]
+    return []
+
+
+def tier_b(ck):
+    from verif import mesonproc as mp
+    mp.preimport()
+    texts = [t for t, tup in TEMPLATES if len(tup) <= (2 if not ck.thorough else 2)]
+    if ck.thorough:
+        texts += [t for t, tup in TEMPLATES if len(tup) == 3][ck.seed % 7::7]
+    datasets = [(a, b) for a in TB_VALUES for b in (TB_VALUES if ck.thorough else TB_VALUES[:4])]
+    ok_cases, err_cases = [], []
+    skipped = 0
+    for text in texts:
+        for fmt in FORMATS:
+            for a, b in datasets:
+                if HANG_CLASS_LIVE and self_referential(text, fmt, a, b):
+                    skipped += 1
+                    continue
+                r = run_real(split_lines(text), cd_for(a, b), fmt)
+                if r[0] == 'ok':
+                    ok_cases.append((text, a, b, fmt))
+                elif r[0] == 'err':
+                    if len(err_cases) < (60 if not ck.thorough else 400) and (a, b) == datasets[0]:
+                        err_cases.append((text, a, b, fmt))
+                else:
+                    skipped += 1
+    B = 600
+    jobs = [(i, ok_cases[i * B:(i + 1) * B]) for i in range((len(ok_cases) + B - 1) // B)]
+    n = 0
+    for cnt, viol in pmap(tierb_batch, jobs, chunksize=1):
+        n += cnt
+        for key, what, rep in viol:
+            ck.violation(key, what, rep)
+    ne = 0
+    for viol in pmap(tierb_error_case, list(enumerate(err_cases)), chunksize=4):
+        ne += 1
+        for key, what, rep in viol:
+            ck.violation(key, what, rep)
+    ck.part('tierB', configure_file_calls=n, setups=len(jobs), error_templates=ne, skipped=skipped, templates=len(texts), datasets=len(datasets))
+    ck.require(n > 5000 and ne > 10, 'tier B compared too little')
+    return n + ne
+
+
 # ---- file-level slice ------------------------------------------------------------------------------------------------
 def file_slice(ck, maxlen, seed):
     root = os.path.join(scratch_root(), 'files')
@@ -948,6 +1069,7 @@ def main():
     nfile = file_slice(ck, 2, ck.seed)
     t_file = time.time()
     nhead, hclasses = header_part(ck)
+    ntb = tier_b(ck) if ck.want('tierb') else 0
     print('phases: probes+build %.1fs enumeration %.1fs file slice %.1fs header %.1fs' % (
         t_build - ck.t0, t_enum - t_build, t_file - t_enum, time.time() - t_file), flush=True)
     esc = next((t for t in TEMPLATES if '\\@A\\@' in t[0] and t[0].endswith('\r\n') and '@B@' in t[0]), TEMPLATES[0])
@@ -955,12 +1077,12 @@ def main():
                'observed': ''.join(run_real(split_lines(esc[0]), cd_for('@B@', 'x y'), 'meson')[1])})
     ck.sample({'template': TEMPLATES[nt // 2][0], 'fragments': [FRAGS[i] for i in TEMPLATES[nt // 2][1]], 'formats': FORMATS})
     ck.sample({'template': TEMPLATES[nt - 7][0], 'fragments': [FRAGS[i] for i in TEMPLATES[nt - 7][1]], 'formats': FORMATS})
-    ck.finish(evaluations=tot.get('evaluations', 0) + nfile + nhead,
+    ck.finish(evaluations=tot.get('evaluations', 0) + nfile + nhead + ntb,
               distinct_nontrivial=len(classes) + hclasses,
               rule='every sequence of <= %d fragments from the 27-fragment alphabet (%d sequences, %d distinct texts) x 100 data sets '
                    '(A,B in %r) x formats %s through the real do_conf_str (+ marker-structure runs for the meson format); do_conf_file on all '
                    'texts <= 2 fragments; dump_conf_header on all ordered key tuples <= 2 x values x description and all permutations of '
-                   '3..%d keys x {c,nasm,json} x macro guard. distinct_nontrivial = number of distinct (format, set of reference line '
+                   '3..%d keys x {c,nasm,json} x macro guard; tier B: all texts <= 2 fragments x data x formats through configure_file() of a real meson setup. distinct_nontrivial = number of distinct (format, set of reference line '
                    'features: var/escape kinds/define kinds/error/CRLF/unspecified reason) classes among templates having at least one '
                    'feature + distinct (header format, value-kind set) classes' % (maxlen, nseq, nt, VALUES, FORMATS, 6 if ck.thorough else 4),
               exhaustive=tot.get('not_run_after_hangs', 0) == 0)
